@@ -4,7 +4,7 @@ import cxx_specs as XS
 
 PROPERTY = "C13"
 LEVEL = "proof"
-EXPLANATION = ""
+EXPLANATION = ('Proof that the rounding-mode reset loads the complete specified MXCSR value whatever the entry state, that CFROUND maps the two selected bits to the rounding mode as specified, and that the hash driver resets before and restores after; replayed natively with unmasked FP exceptions.')
 TRUSTED = ["stmxcsr / ldmxcsr read and write exactly the ghost control word; FTZ/DAZ/rounding bits act on arithmetic as documented",
            "the JIT prologue/epilogue and the AES / Blake2b code do not touch MXCSR (assembly and intrinsics not modelled)"]
 ASSUMPTIONS = []
